@@ -79,6 +79,20 @@ def PM.result (m : PM) (negative : Bool) (o : Nat) : Nat :=
     | none => 0
   if negative then (raw + 1) % 2 else raw
 
+/-- where the returned outcome lives: 0 = a constant on the host (trivial measurement), 1 = an entry of
+an array in shared memory (`q.measure()` with the default `store_array=True`: the handle is a `Future`).
+A register (kind 2, `RegFuture`) is never used: M registers are reassigned in every subroutine. -/
+def PM.storedKind (m : PM) : Nat :=
+  match m.measured with
+  | some _ => 1
+  | none => 0
+
+/-- the value the CONTROLLER holds in that array entry once the subroutine has run, for measurement
+outcome `o`: the sign of a negated string is applied on the controller (`m.add(1, mod=2)` compiles to
+load / addm / store), so every consumer — host read at any later time, `if_eq` feed-forward, `add` into
+another entry, raw shared memory — sees the signed parity. Equal to `PM.result` by definition. -/
+def PM.stored (m : PM) (negative : Bool) (o : Nat) : Nat := m.result negative o
+
 /-! ### Allocation state along a trace (for repeated use) -/
 
 /-- effect of one event on the list of live virtual qubit ids; `none` = the controller faults
